@@ -603,7 +603,30 @@ def r03_9(ctx, rid="R03.9"):
                 vi = src(inline_at(cfg, rd, n.id, v))
                 cands = [(pn, pv) for pn, pv in P if src(inline_at(cfg, rd, pn.id, pv)) == vi]
                 if not cands:
-                    ctx.und(rid, key + f" (line {n.lineno})", f"no plain return spells the value `{src(v)}`; plain returns: {[src(pv) for _, pv in P]}", fi, n.ast)
+                    # different spelling: compare what the two values are computed FROM (attributes of self and parameters read by
+                    # the value expression and, transitively, by the definitions reaching it)
+                    def deps(nid, e):
+                        out = {src(z) for z in ast.walk(e) if isinstance(z, ast.Attribute) and isinstance(z.value, ast.Name) and z.value.id == "self"}
+                        for nm, txt in closure(nid, e):
+                            if txt == "<param>":
+                                out.add(nm)
+                                continue
+                            try:
+                                t = ast.parse(txt).body[0]
+                            except SyntaxError:
+                                continue
+                            val = getattr(t, "value", None)
+                            if val is not None:
+                                out |= {src(z) for z in ast.walk(val) if isinstance(z, ast.Attribute) and isinstance(z.value, ast.Name) and z.value.id == "self"}
+                        return out
+                    dm = deps(n.id, v)
+                    dps = [(pn, pv, deps(pn.id, pv)) for pn, pv in P]
+                    if dps and all(dp != dm for _, _, dp in dps):
+                        pn, pv, dp = dps[0]
+                        ctx.bad(rid, key + f" [{src(v)}]", f"the value returned with the metric (line {n.lineno}) is computed from {sorted(dm)}, the plain value "
+                                f"`{short(pv, 50)}` (line {pn.lineno}) from {sorted(dp)}: differs in {sorted(dm ^ dp)}", fi, n.ast)
+                    else:
+                        ctx.und(rid, key + f" (line {n.lineno})", f"no plain return spells the value `{src(v)}`; plain returns: {[src(pv) for _, pv in P]}", fi, n.ast)
                     continue
             good = [pn for pn, pv in cands if closure(pn.id, pv) == cm]
             if good:
